@@ -187,7 +187,7 @@ func extractSnippets(text string) (snippets []*snippet, err error) {
 	// add last
 	if start >= 0 {
 		snippets = append(snippets, &snippet{
-			text:           prepToken(text[start : pos+1]),
+			text:           prepToken(text[start:]),
 			globalPosition: start + 1,
 		})
 	}
